@@ -234,6 +234,40 @@ def run(ck: Check) -> int:
     if drv:
         ck.stream('K5-case-variant-trees', s_k5case)
 
+    # `..` written after a symlinked directory whose target lives elsewhere, and group-like text without EXTGLOB whose inside holds
+    # a separator (added after seeded changes C05e — the directory to scan was normalised lexically — and C05f — the splitter
+    # skipped `X(…)` groups with EXTGLOB off)
+    def _odd_spec(R_):
+        spec = [('plain', 'dir', ''), ('plain/jump', 'dir', ''), ('plain/jump/target', 'dir', ''), ('plain/jump/target/t1', 'file', ''),
+                ('plain/jump/o2', 'file', ''), ('plain/o3', 'file', ''), ('o1', 'file', ''), ('link', 'link', 'plain/jump/target'),
+                ('plain/back', 'link', '..'), ('@(a', 'dir', ''), ('@(a/b)', 'file', ''), ('@(a/c', 'file', ''), ('v(1', 'dir', ''),
+                ('v(1/2)', 'file', ''), ('n+(d', 'dir', ''), ('n+(d/x).txt', 'file', ''), ('w!(n', 'dir', ''), ('w!(n/r)', 'file', ''),
+                ('a', 'dir', ''), ('a/b', 'file', ''), ('ab', 'file', '')]
+        keep = [e for e in spec if R_.random() < 0.93]
+        have = {e[0] for e in keep}
+        return [e for e in keep if '/' not in e[0] or e[0].rsplit('/', 1)[0] in have]
+
+    ODD_PATS = ['link/../*', 'l*/../*', 'plain/jump/target/../../o*', 'link/..', 'link/../o*', 'link/../../*', '*/../*', 'link/./../*',
+                'plain/back/*', 'plain/back/../*', 'link/../t1', 'link/../o2', 'link/t1', '**/../o*',
+                '@(a/b)', 'v*(1/2)', 'n+(d/*).txt', 'w!(n/r)', '@(a/*', '?(a/b)', '*(a/b)', '@(a|a/b)', 'v?(1/2)', '[v]*(1/2)', '@(a/b)*']
+
+    def _odd_cases(R_, t):
+        out = []
+        for p in R_.sample(ODD_PATS, 10 if quick else len(ODD_PATS)):
+            fl = 0
+            for nm, pr in (('GLOBSTAR', 0.5), ('EXTGLOB', 0.25), ('MARK', 0.15), ('DOTGLOB', 0.2), ('NODOTDIR', 0.1), ('MATCHBASE', 0.1)):
+                if R_.random() < pr:
+                    fl |= getattr(G, nm)
+            out.append(K.Case(p, fl, None, R_.choice(['root_dir', 'root_dir', 'cwd', 'dir_fd'])))
+        return out
+
+    def s_k5odd(sr):
+        sr.note = ('K5 on trees with a link whose target is not a sibling (`link/../x` is the parent of the TARGET), a link to `..`, '
+                   'and names made of group-like text (`@(a/b)`, `v(1/2)`, `n+(d/x).txt`) searched with and without EXTGLOB')
+        K.k5_loop(sr, drv, G, W, U, R, 12 if quick else 120, _odd_cases, on_case, spec_for=_odd_spec)
+    if drv:
+        ck.stream('K5-dotdot-after-link-and-group-text', s_k5odd)
+
     def s_search(sr):
         sr.note = 'set(glob.glob(p)) vs Spec.denoteTop on the same tree (one pattern, no exclusions)'
         sr.histogram = dict(stats)
